@@ -12,6 +12,7 @@ from kvstatic import flow, pathsens, rt, util
 from kvstatic.effects import Effects
 from kvstatic.locks import LockModel
 from kvstatic.callgraph import sync_calls, callers_index
+from rules import C02 as _c02
 
 MANIFEST = {
     'text': 'Decides the structural clauses of the durability protocol on every CFG path of the write, snapshot, '
@@ -443,4 +444,11 @@ def run(ctx, prog):
     n_exc = sum(v for (k, u), v in counts.items() if u == 'continues')
     ctx.stat('logged_only_sites', n_exc)
     ctx.stat('call_sites_checked', n_sites)
+    ctx.stat('functions_analysed', len(set(i['key'].split(' | ')[1] for i in ctx.instances)))
+
+    # ------------------------------------------------------------------ R8 numbering after a restart
+    ctx.rule('C01.R8', 'a write acknowledged after a restart is numbered above everything the newest snapshot covers: next_wal_seq of the '
+                       'recovered backend = max(snapshot.last_wal_seq, every logged seq) + 1 (otherwise the following restart skips the '
+                       'acknowledged entry as covered); same rule as C02.R1')
+    _c02.seq_continuation(ctx, prog, 'C01.R8')
     ctx.stat('functions_analysed', len(set(i['key'].split(' | ')[1] for i in ctx.instances)))
